@@ -270,6 +270,14 @@ pub use p2panda_net::iroh_endpoint::{EndpointAddr, RelayUrl};
 pub use p2panda_net::{NetworkId, NodeId};
 
 pub use builder::NodeBuilder;
+
+/// Verification hook: re-exports of crate-private items for the conformance harness.
+#[cfg(p2panda_p2panda_verif)]
+pub mod verif_api {
+    pub use crate::forge::{Forge, ForgeError, OperationForge};
+    pub use crate::processor::verif_api::*;
+    pub use crate::streams::verif_api::*;
+}
 #[doc(inline)]
 pub use node::Node;
 
